@@ -69,6 +69,24 @@ def w_hier(case):
     exp2 = float(np.real(hier.ref_score(case, vec2)))
     got2 = hl(vec2.copy())
     ntr += 1
+    if case.get('int_vec'):
+        # whole-number vector handed over as an integer array, a list of Python
+        # ints and a float array: one and the same value
+        v3 = np.maximum(1, np.round(np.abs(vec)))
+        v3[nb:] += 3
+        exp3 = float(np.real(hier.ref_score(case, v3)))
+        for form, arg in (('int array', v3.astype(int)),
+                          ('list of ints', [int(x) for x in v3]),
+                          ('float array', v3.copy())):
+            got3 = hl(arg)
+            ntr += 1
+            if not tol.close(got3, exp3):
+                viol.append({
+                    'sub': 'int_vec', 'message': 'hierarchical log-likelihood wrong '
+                    'for a whole-number vector passed as %s (%s, n_ids=%d)'
+                    % (form, lab, n_ids), 'expected': exp3, 'observed': got3,
+                    'behaviour': 'score'})
+                break
     if not tol.close(got2, exp2):
         viol.append({'sub': 'score2', 'message': 'hierarchical log-likelihood '
                      'wrong at the second point (%s, n_ids=%d)' % (lab, n_ids),
@@ -115,7 +133,8 @@ def w_hier(case):
             'violations': viol}
 
 
-WORKERS = {'compositions': w_hier, 'reduced': w_hier, 'ids': w_hier}
+WORKERS = {'compositions': w_hier, 'reduced': w_hier, 'ids': w_hier,
+           'int_vectors': w_hier}
 
 
 def build(tier, seed):
@@ -138,9 +157,11 @@ def build(tier, seed):
     bases = [rp.Comp([rp.G(1), rp.P(1), rp.LN(1, False)]),
              rp.Comp([rp.H(1), rp.G(2, False)]),
              rp.Comp([rp.Cov(rp.G(1)), rp.LN(1), rp.P(1)]),
+             rp.Comp([rp.G(1), rp.H(1), rp.P(1)]),
              rp.G(3), rp.Comp([rp.P(2), rp.TG(1)])]
     if tier == 'quick':
-        bases = bases[:3]
+        bases = bases[:4]
+    from ..gen import popbuild
     for base in bases:
         for n_ids in range(1, max_ids + 1):
             n = rp.n_top(base, n_ids)
@@ -149,6 +170,18 @@ def build(tier, seed):
                 for idx in itertools.combinations(range(n), r):
                     spec = rp.Red(base, {i: full[i] for i in idx})
                     red.append(hier.make_case(spec, n_ids, seed, prior=(r == 1)))
+                    # the same wrapper created and fixed for one individual, the
+                    # hierarchical likelihood sets the number of individuals
+                    if n_ids > 1 and popbuild.build_early(spec, n_ids) is not None:
+                        c = hier.make_case(spec, n_ids, seed)
+                        c['early'] = True
+                        red.append(c)
+    # whole-number parameter vectors in integer / list / float form
+    intc = []
+    for spec in hier.structures(3, ['G', 'LNnc', 'P', 'Cov(G)', 'Cov(LNnc)']):
+        c = hier.make_case(spec, 2, seed)
+        c['int_vec'] = True
+        intc.append(c)
     # ID handling: integer, float-with-.0 and string IDs
     idc = []
     for ids in ([1, 2, 3], [10.0, 2.0, 7.0], ['b', 'a', 'c'], [3, 'x', 1.0]):
@@ -160,8 +193,11 @@ def build(tier, seed):
             Part('compositions', cases, w_hier,
                  'all sub-model sequences with dims summing to the bottom dimension'),
             Part('reduced', red, w_hier,
-                 'ReducedPopulationModel with every subset of <=2 fixed parameters'),
+                 'ReducedPopulationModel with every subset of <=2 fixed parameters, '
+                 'wrapped at the final number of individuals or for one individual'),
             Part('ids', idc, w_hier, 'integer / float / string individual IDs'),
+            Part('int_vectors', intc, w_hier,
+                 'whole-number parameter vectors as integer array / list / floats'),
         ],
         'bounds': {'kinds': kinds, 'n_ids_max': max_ids, 'bottom_dim': 3},
         'rule': 'complete enumeration of sub-model sequences over the alphabet '
